@@ -95,7 +95,14 @@ def pipeflow(net, sol_vec=None, **kwargs):
         if calculate_heat:
             heat_transfer(net)
 
-    extract_all_results(net, calculation_mode)
+    try:
+        extract_all_results(net, calculation_mode)
+    except Exception:
+        # a failure while writing the results must not leave a converged flag or partly written
+        # result tables behind
+        net.converged = False
+        init_all_result_tables(net)
+        raise
 
 
 def use_given_hydraulic_results(net, sol_vec):
